@@ -154,10 +154,16 @@ ClassifyTcp(before, seg, ctx) ==
       [] id = "RPC_UDP" -> Cls(id, "any", "C16", "rpc-unframed-over-tcp")
       [] OTHER -> IF lb = 0 THEN ClassifyDatagramLike(id, seg, ctx)
                   ELSE IF SplitWhole(before, seg) THEN ClassifyDatagramLike(id, s, ctx)
+                  (* a further NetBIOS session message on an SMB connection (the session setup after the *)
+                  (* negotiate): judged like the first, provided every earlier segment was one message   *)
+                  ELSE IF id \in { "SMB1", "SMB2" } /\ ctx.nbt /\ RefId(seg, FALSE) = id
+                       THEN ClassifyDatagramLike(id, seg, ctx)
                   ELSE Cls(id, "any", "C10", "non-stream-protocol-split")
 
 Classify(transport, before, seg, ctx) ==
-    IF transport = "udp" THEN ClassifyUdp(seg, ctx) ELSE ClassifyTcp(before, seg, ctx)
+    IF transport = "udp" THEN ClassifyUdp(seg, ctx)
+    ELSE IF ctx.over THEN Cls("none", "any", "C10", "stream-longer-than-the-model-keeps")
+    ELSE ClassifyTcp(before, seg, ctx)
 
 (* who wrote this reply?  (by its syntax) *)
 ResponderOf(transport, r) ==
@@ -212,10 +218,11 @@ AppJudge(transport, before, done, seg0, ctx, rpl, aux) ==
         answered == rpl # << >>
         s == before \o seg0
         seg == AppMsg(transport, before, seg0)
-        id == RefId(s, transport = "udp")
+        id == IF ctx.over THEN "over" ELSE RefId(s, transport = "udp")
         who == IF answered THEN ResponderOf(transport, rpl) ELSE "nobody"
         (* reply-typed: the stream as a whole, or (message-oriented protocols) this segment alone *)
-        rt == ReplyTypedBy(transport, s) \cup (IF before # << >> THEN ReplyTypedBy("udp", seg0) ELSE {})
+        rt == IF ctx.over THEN {}
+              ELSE ReplyTypedBy(transport, s) \cup (IF before # << >> THEN ReplyTypedBy("udp", seg0) ELSE {})
     IN
     (IF c.ans = "mustnot" /\ answered
      THEN { << c.prop, "answered:" \o c.why >> }
